@@ -274,9 +274,14 @@ private:
             stream_.state_.store(
                 state::source_next_active, std::memory_order_relaxed);
             UNIFEX_TRY {
+              // The stop callback may run as soon as it is registered (inline
+              // if stop has been requested meanwhile, or on another thread).
+              // It completes the consumer, which may destroy *this, so don't
+              // read members after registering it.
+              stream& strm = stream_;
               stopCallback_.construct(
-                  std::move(stopToken), cancel_next_callback{stream_});
-              unifex::start(stream_.nextOp_.get());
+                  std::move(stopToken), cancel_next_callback{strm});
+              unifex::start(strm.nextOp_.get());
             }
             UNIFEX_CATCH(...) {
               stream_.nextReceiver_ = nullptr;
